@@ -11,12 +11,17 @@
 //!         differently from the std and the entry package), then with --eval `\t<qv_eval line>`.
 //! `qv_ast --std` prints one `(mod "<path>" <Program>)` line per bundled std module instead
 //! (a case refers to those by `(use "<path>")`).
+//! `qv_ast --norm` prints `(norm <Program> <Program after the real simplify::normalize_blocks with the
+//! compiler's options>)` per case (correspondence of coq/theories/lang/LangSimplify.v).
+//! `qv_ast --code` prints `<ast dump>\t(code <instr>..)`: the entry function's instructions as the real
+//! compiler emits them, constants and tuple ids resolved (correspondence of lang/LangCompile.v).
 //! The dump format is the one of qv_format.rs (C17) minus the chain span offset.
 use qvh::hex;
 use qvh::sexp::{self, Sexp};
 use quiver_compiler::ast::*;
 use quiver_compiler::ModuleResolver;
 use quiver_compiler::PackageId;
+use quiver_compiler::simplify::{Options, normalize_blocks};
 use quiver_compiler::{PackageResolver, parse};
 use std::collections::{BTreeMap, HashMap};
 
@@ -369,10 +374,106 @@ fn dump_std() {
     }
 }
 
+/// `--norm`: `(norm <Program as parsed> <Program after the REAL normalize_blocks>)` with the options
+/// compiler.rs uses (keep nothing, lift, no grouping), or `(parse-error)`.
+fn dump_norm(src: &str) -> String {
+    let program = match parse(src) {
+        Ok(p) => p,
+        Err(_) => return "(parse-error)".to_string(),
+    };
+    let before = d_program(&program);
+    let after = normalize_blocks(
+        program,
+        &Options {
+            keep: &|_| false,
+            lift: true,
+            group_consequences: false,
+        },
+    );
+    Sexp::List(vec![a("norm"), before, d_program(&after)]).to_string()
+}
+
+/// `--code`: the instructions of the ENTRY function as the real compiler emits them, with constant
+/// indices resolved to the constant and tuple ids resolved to their (name, labels) shape:
+/// `(code (store) (load 0) (const 5) (tuple Name (l1 -)) ..)` | `(parse-error)` | `(compile-error K)`.
+fn dump_code(src: &str) -> String {
+    use quiver_core::bytecode::{Constant, Instruction};
+    let compiled = match qvh::compile_source(src, HashMap::new()) {
+        Ok(c) => c,
+        Err(e) => return e.line(),
+    };
+    let bc = compiled.program.to_bytecode(Some(compiled.entry));
+    let Some(entry) = bc.entry else {
+        return "(no-entry)".to_string();
+    };
+    let mut v = vec![a("code")];
+    for i in &bc.functions[entry].instructions {
+        v.push(match i {
+            Instruction::Constant(k) => match bc.constants.get(*k) {
+                Some(Constant::Integer(n)) => l("const", vec![a(&n.to_string())]),
+                Some(Constant::Binary(b)) => l("const-bin", vec![xhex(b)]),
+                None => l("const", vec![a("?")]),
+            },
+            Instruction::Tuple(t) => match bc.tuples.get(*t) {
+                Some(info) => l(
+                    "tuple",
+                    vec![
+                        opt_name(&info.name),
+                        Sexp::List(info.fields.iter().map(|(n, _)| opt_name(n)).collect()),
+                    ],
+                ),
+                None => l("tuple", vec![a("?")]),
+            },
+            Instruction::Pop => l("pop", vec![]),
+            Instruction::Duplicate => l("dup", vec![]),
+            Instruction::Pick(n) => l("pick", vec![a(&n.to_string())]),
+            Instruction::Rotate(n) => l("rot", vec![a(&n.to_string())]),
+            Instruction::Reset(n) => l("reset", vec![a(&n.to_string())]),
+            Instruction::Load(n) => l("load", vec![a(&n.to_string())]),
+            Instruction::Store => l("store", vec![]),
+            Instruction::Get(n) => l("get", vec![a(&n.to_string())]),
+            Instruction::Jump(o) => l("jmp", vec![a(&o.to_string())]),
+            Instruction::JumpIf(o) => l("jmpif", vec![a(&o.to_string())]),
+            Instruction::Not => l("not", vec![]),
+            other => l("other", vec![a(&format!("{:?}", other).split(['(', ' ']).next().unwrap_or("").to_string())]),
+        });
+    }
+    Sexp::List(v).to_string()
+}
+
 fn main() {
     qvh::quiet_panics();
+    if std::env::args().any(|x| x == "--code") {
+        for line in qvh::stdin_cases() {
+            let items = sexp::parse_all(&line);
+            let src = items[0].atom().to_string();
+            let src2 = src.clone();
+            let ast = match qvh::guarded(move || dump_case(&src2, &HashMap::new())) {
+                Ok(s) => s,
+                Err(loc) => format!("(panic \"{}\")", loc),
+            };
+            let code = match qvh::guarded(move || dump_code(&src)) {
+                Ok(s) => s,
+                Err(loc) => format!("(panic \"{}\")", loc),
+            };
+            println!("{}\t{}", ast, code);
+        }
+        return;
+    }
     if std::env::args().any(|x| x == "--std") {
         dump_std();
+        return;
+    }
+    if std::env::args().any(|x| x == "--norm") {
+        for line in qvh::stdin_cases() {
+            let items = sexp::parse_all(&line);
+            let src = items[0].atom().to_string();
+            let out = match qvh::guarded(move || dump_norm(&src)) {
+                Ok(s) => s,
+                Err(loc) => format!("(panic \"{}\")", loc),
+            };
+            println!("{}", out);
+        }
         return;
     }
     let with_eval = std::env::args().any(|x| x == "--eval");
